@@ -1,17 +1,31 @@
 import Exetera.Props.C06
 import Exetera.Props.C10.Basic
 import Exetera.Model.KernelSitesTransforms
+import Exetera.Model.KernelPathsTransforms
 /-!
 # C10 — the compiled import transforms (owning property: C06)
 
 Validity predicate throughout: the chunk handed to the importer holds `written_row_count` cells, consecutive inside the
-column's own staging buffer (`Spec.Transforms.Encodes`) — what `fast_csv_reader` delivers (C05). `transform_int` /
-`transform_float` run `fixed_string_transform` and numpy's `astype` (numpy's bounds); timestamps are parsed in Python.
+column's own staging buffer — what `fast_csv_reader` delivers (C05) — and is a column of the staging arrays,
+`col_idx < number of columns` — what `read_file_using_fast_csv_reader` passes (`Spec.Transforms.Encodes`, whose doc comment
+quotes the caller). Under it the column subscript of `column_offsets[col_idx]` / `column_inds[col_idx, ·]` (`withCol`) is in
+range like every other subscript. `numeric_bool_transform` additionally takes the sizes of its two result arrays; the
+hypotheses `written_row_count ≤ len(elements), len(validity)` are what its only caller establishes
+(`NumericImporter.import_part` allocates both with `written_row_count` elements). `transform_int` / `transform_float` run
+`fixed_string_transform` and numpy's `astype` (numpy's bounds); timestamps are parsed in Python.
 -/
 namespace Exetera.Props.C10
 open Exetera Exetera.Transforms
 
 theorem access_sites_covered_transforms : ∀ k ∈ KernelSites.transformsSites, lookup k.1 = some k := by decide +kernel
+
+/-- the PATH CONDITION of every subscript occurrence in these kernels (enclosing loop guards, `if` / `elif` tests, negated
+    `else` branches and early exits), as regenerated from the current source (`Gen/KernelPaths.lean`), is exactly the one the
+    model was written against (`Model/KernelPathsTransforms.lean`): dropping or changing a test that dominates a subscript breaks
+    the build; and the table covers exactly the kernels of the site table -/
+theorem access_paths_covered_transforms :
+    (∀ k ∈ KernelPaths.transformsPaths, lookupPaths k.1 = some k) ∧
+    KernelPaths.transformsPaths.map (·.1) = KernelSites.transformsSites.map (·.1) := by decide +kernel
 
 example : KernelSites.transformsSites.length = 5 := by decide
 
@@ -50,12 +64,27 @@ theorem no_oob_fixed_import (n : Nat) (chunks : List Chunk) (cellss : List (List
     fixedImport n chunks data ≠ .error (.oob site) :=
   ne_oob_of_ok (C06.fixed_import n chunks cellss h data) site
 
-/-- `numeric_bool_transform` in every validation mode: the run ends `.ok` or with the importer's `Exception` (strict /
-    allow_empty rejecting a cell) — never out of bounds (the two blank-trimming loops stay inside the cell) -/
-theorem no_oob_numeric_bool_transform (c : Chunk) (mode : Mode) (invalid : Bool) (cells : List Bytes)
-    (h : Spec.Transforms.Encodes c cells) (site : String) : boolTransform c mode invalid ≠ .error (.oob site) := by
-  rw [C06.bool_transform_spec c mode invalid cells h]
+/-- `numeric_bool_transform` in every validation mode, writing into result arrays of `capE` / `capV` ≥ `written_row_count`
+    elements: the run ends `.ok` or with the importer's `Exception` (strict / allow_empty rejecting a cell) — never out of
+    bounds (the two blank-trimming loops stay inside the cell, `elements[row_idx]` / `validity[row_idx]` inside the arrays) -/
+theorem no_oob_numeric_bool_transform (c : Chunk) (mode : Mode) (invalid : Bool) (capE capV : Nat) (cells : List Bytes)
+    (h : Spec.Transforms.Encodes c cells) (hE : c.rows ≤ capE) (hV : c.rows ≤ capV) (site : String) :
+    boolTransform c mode invalid capE capV ≠ .error (.oob site) := by
+  rw [C06.bool_transform_spec c mode invalid capE capV cells h hE hV]
   split <;> (intro h'; cases h')
+
+/-- conversely, a result array shorter than the row count IS an out-of-bounds write of the model (so the hypotheses above are
+    needed, and the model's check is not vacuous): whatever the cells -/
+theorem numeric_bool_transform_oob_of_short_elements (c : Chunk) (mode : Mode) (invalid : Bool) (capE capV : Nat)
+    (cells : List Bytes) (h : Spec.Transforms.Encodes c cells) (hrows : 0 < c.rows) (hE : capE = 0) :
+    boolTransform c mode invalid capE capV = .error (.oob "elements[row_idx]") := by
+  obtain ⟨hr, ⟨s0, he, _⟩, hcol⟩ := h
+  rw [boolTransform, Spec.Transforms.withCol_ok c _ _ _ hcol]
+  cases cells with
+  | nil => simp at hr; omega
+  | cons cell rest =>
+    rw [hr, List.length_cons, boolRows, boolCell_spec c 0 s0 cell rest he]
+    simp [hE]
 
 theorem no_oob_bool_import (mode : Mode) (invalid : Bool) (chunks : List Chunk) (cellss : List (List Bytes))
     (h : Spec.Transforms.EncodesAll chunks cellss) (st : List Bool × List Bool) (site : String) :
@@ -73,5 +102,8 @@ example : Spec.Transforms.Encodes C06.demoChunk [[97, 98], [], [97, 98, 99]] := 
 example : fixedStringTransform C06.demoChunk 2 = .ok [97, 98, 0, 0, 97, 98] := by rfl
 /-- the error branch is real: a row offset pointing past the staging buffer -/
 example : fixedStringTransform { C06.demoChunk with inds := [0, 2, 2, 9, 9] } 8 = .error (.oob "column_vals[c]") := by rfl
+/-- and so is the column-subscript branch: `col_idx` = number of columns -/
+example : cellsE { C06.demoChunk with col := 2 } = .error (.oob "column_inds[col_idx,row_idx]") := by rfl
+example : boolTransform C06.demoChunk .relaxed true 3 3 = .ok ([true, true, true], [false, false, false]) := by rfl
 
 end Exetera.Props.C10
